@@ -196,9 +196,11 @@ def entities(scn, vec, mods):
     gen.fresh(M)
     gen.fresh(V)
     if scn.get("decor"):
-        # every participant annotated with features of every unusual but legal shape
-        v = V(gen.contained(vec, "annotated", "vec"))
-        ms = [M(gen.contained(m, "annotated", "mod%d" % i)) for i, m in enumerate(mods)]
+        # every participant annotated with features of every unusual but legal shape; decor = 1 + index of the route along
+        # which the records were produced (fresh, rotated back by the library, reverse-complemented twice, through GenBank text, ...)
+        route = gen.ROUTES[scn["decor"] - 1]
+        v = V(gen.produced(vec, route, "vec"))
+        ms = [M(gen.produced(m, route, "mod%d" % i)) for i, m in enumerate(mods)]
         return v, ms
     v = V(gen.crec(vec, "vec"))
     ms = [M(gen.crec(m, "mod%d" % i)) for i, m in enumerate(mods)]
